@@ -929,7 +929,7 @@ func c08Step(c *Ctx) {
 			// the value tested is the action's error (or, along other ways, the nil constant: a helper's
 			// `return bs, false, nil`), so "not nil" means the action failed
 			hit, only := false, true
-			for d := range leaves(v) {
+			for _, d := range deepDefsRecords(v, scope) {
 				switch {
 				case d == actErr:
 					hit = true
